@@ -204,6 +204,9 @@ static Sc fs_exact_rho0(Sc x, Sc y) { Sc z = 0, t = 0; FS_STEADY(RHO, JSIN, rho_
 #define CONTRACT_fans_sa_transient_free_shear__eval_exact_nu_2  REQ(1) ENS_EQ(FSC(eval_exact_nu_3)(x, y, LIT(0, 1))) FRAME()
 #define CONTRACT_fans_sa_transient_free_shear__eval_q_rho_2     REQ(1) ENS_EQ(FSC(eval_q_rho_3)(x, y, LIT(0, 1))) FRAME()
 #define CONTRACT_fans_sa_transient_free_shear__eval_q_rho_v_2   REQ(1) ENS_EQ(FSC(eval_q_rho_v_3)(x, y, LIT(0, 1))) FRAME()
+/* eval_q_rho_u(x,y), eval_q_rho_e(x,y) were bounded stand-ins until rule Lf / the sign-hoisted LIT removed the CBMC 6.11 crash on their bodies */
+#define CONTRACT_fans_sa_transient_free_shear__eval_q_rho_u_2   REQ(1) ENS_EQ(FSC(eval_q_rho_u_3)(x, y, LIT(0, 1))) FRAME()
+#define CONTRACT_fans_sa_transient_free_shear__eval_q_rho_e_2   REQ(1) ENS_EQ(FSC(eval_q_rho_e_3)(x, y, LIT(0, 1))) FRAME()
 #define CONTRACT_fans_sa_transient_free_shear__eval_q_nu_2      REQ(1) ENS_EQ(FSC(eval_q_nu_3)(x, y, LIT(0, 1))) FRAME()
 #define CONTRACT_fans_sa_transient_free_shear__eval_exact_u_2   FS_REQ ENS_EQ(fs_exact_u0(x, y)) FRAME()
 #define CONTRACT_fans_sa_transient_free_shear__eval_exact_v_2   FS_REQ ENS_EQ(fs_exact_v0(x, y)) FRAME()
